@@ -3,7 +3,7 @@
    arithmetic are proved for EVERY instance (E, LW) of the EdLaws record (Model/EdClass.v): the group laws are
    hypotheses of the statement, hence the suffix `_partial`.
    This file contains only statements (pinned by Check), `exact` proofs and assumption audits. *)
-From MRS Require Import Proofs.KeysProofs Proofs.EdInstProofs Proofs.EdToy.
+From MRS Require Import Proofs.KeysProofs Proofs.EdInstProofs Proofs.EdInstLaws Proofs.EdToy.
 Open Scope Z_scope.
 
 (* ---- secret keys -------------------------------------------------------------------------------------------- *)
@@ -116,13 +116,57 @@ Proof. exact inst_accepted_canonical. Qed.
 Theorem C13_laws_satisfiable : exists E : EdOps, EdLaws E /\ @smul E 1 G <> @smul E 0 G.
 Proof. exists toy_ops. split; [exact toy_laws|exact toy_nontrivial]. Qed.
 
-(* the three laws of EdLaws that are PROVED for the executable instance (the others are validated by computation only:
-   Proofs/EdKAT.v and the correspondence run) *)
+(* the THIRTEEN laws of EdLaws that are PROVED, unconditionally, for the executable instance (Proofs/EdInstProofs.v,
+   Proofs/EdInstLaws.v: modular algebra without inverses + closed kernel computations), each stated as the field of EdLaws
+   instantiated at `ed25519_ops` (padd_comm and compress_len even without the `valid` premises), and the inverse-free
+   part of decompress_valid.  The other nine fields remain hypotheses for this instance: see the next theorem. *)
 Theorem C13_instance_laws_proved :
-  (forall P : @point ed25519_ops, length (compress P) = 32%nat) /\
+  (* valid_zero, valid_G, valid_neg *)
+  @valid ed25519_ops pzero /\
+  @valid ed25519_ops G /\
+  (forall P : @point ed25519_ops, valid P -> valid (pneg P)) /\
+  (* padd_comm (for all representatives), padd_zero_r *)
   (forall P Q : @point ed25519_ops, padd P Q = padd Q P) /\
-  (forall P Q : @point ed25519_ops, valid P -> valid Q -> (peqb P Q = true <-> P = Q)).
-Proof. split; [exact inst_compress_len|split; [exact inst_padd_comm|exact inst_peqb_eq]]. Qed.
+  (forall P : @point ed25519_ops, valid P -> padd P pzero = P) /\
+  (* smul_0, smul_1, smul_opp *)
+  (forall P : @point ed25519_ops, valid P -> smul 0 P = pzero) /\
+  (forall P : @point ed25519_ops, valid P -> smul 1 P = P) /\
+  (forall a (P : @point ed25519_ops), valid P -> smul (- a) P = pneg (smul a P)) /\
+  (* smul_ell_G *)
+  @smul ed25519_ops ell G = pzero /\
+  (* compress_len (for all representatives), peqb_eq *)
+  (forall P : @point ed25519_ops, length (compress P) = 32%nat) /\
+  (forall P Q : @point ed25519_ops, valid P -> valid Q -> (peqb P Q = true <-> P = Q)) /\
+  (* tors_valid, tors_8 *)
+  (forall i, @valid ed25519_ops (tors i)) /\
+  (forall i, @smul ed25519_ops 8 (tors i) = pzero) /\
+  (* decompress_valid without the curve equation *)
+  (forall b (P : @point ed25519_ops), decompress b = Some P ->
+     0 <= Ed25519.pX P < Ed25519.fp /\ 0 <= Ed25519.pY P < Ed25519.fp /\ Ed25519.pZ P = 1 /\
+     Ed25519.pT P = Ed25519.fmul (Ed25519.pX P) (Ed25519.pY P)).
+Proof.
+  split; [exact inst_valid_zero|]. split; [exact inst_valid_G|]. split; [exact inst_valid_neg|].
+  split; [exact inst_padd_comm|]. split; [exact inst_padd_zero_r|].
+  split; [exact inst_smul_0|]. split; [exact inst_smul_1|]. split; [exact inst_smul_opp|].
+  split; [exact inst_smul_ell_G|]. split; [exact inst_compress_len|]. split; [exact inst_peqb_eq|].
+  split; [exact inst_tors_valid|]. split; [exact inst_tors_8|exact inst_decompress_some_shape].
+Qed.
+
+(* what is still missing for `EdLaws ed25519_ops`, explicitly: closure under addition and scalar multiplication,
+   associativity, inverse, smul_add, smul_mul, G_order, decompress_compress, and that a decompressed point satisfies the
+   curve equation (`inst_on_curve`).  All of them need field inverses (primality of 2^255-19) / the Edwards addition law. *)
+Theorem C13_instance_laws_remaining :
+  (forall P Q : @point ed25519_ops, valid P -> valid Q -> valid (padd P Q)) ->
+  (forall k (P : @point ed25519_ops), valid P -> valid (smul k P)) ->
+  (forall P Q R : @point ed25519_ops, valid P -> valid Q -> valid R -> padd P (padd Q R) = padd (padd P Q) R) ->
+  (forall P : @point ed25519_ops, valid P -> padd P (pneg P) = pzero) ->
+  (forall a b (P : @point ed25519_ops), valid P -> smul (a + b) P = padd (smul a P) (smul b P)) ->
+  (forall a b (P : @point ed25519_ops), valid P -> smul (a * b) P = smul a (smul b P)) ->
+  (forall a b, @smul ed25519_ops a G = smul b G -> a mod ell = b mod ell) ->
+  (forall P : @point ed25519_ops, valid P -> decompress (compress P) = Some P) ->
+  (forall b (P : @point ed25519_ops), decompress b = Some P -> inst_on_curve P) ->
+  EdLaws ed25519_ops.
+Proof. exact inst_laws_from_remaining. Qed.
 
 (* non-vacuity / sanity on the concrete arithmetic (curve known-answer tests are in Proofs/EdKAT.v) *)
 Example C13_ex_l_minus_1 : sk_from_slice (sk_to_bytes (ell - 1)) = Ok (ell - 1) /\ sk_from_slice (sk_to_bytes ell) = Err EBad.
@@ -181,9 +225,40 @@ Check C13_public_canonical_range : forall k, @pk_from_slice ed25519_ops k = Ok k
     le2z k mod 2 ^ 255 = y /\ (x = 0 -> le2z k < 2 ^ 255).
 Check C13_laws_satisfiable : exists E : EdOps, EdLaws E /\ @smul E 1 G <> @smul E 0 G.
 Check C13_instance_laws_proved :
-  (forall P : @point ed25519_ops, length (compress P) = 32%nat) /\
+  (* valid_zero, valid_G, valid_neg *)
+  @valid ed25519_ops pzero /\
+  @valid ed25519_ops G /\
+  (forall P : @point ed25519_ops, valid P -> valid (pneg P)) /\
+  (* padd_comm (for all representatives), padd_zero_r *)
   (forall P Q : @point ed25519_ops, padd P Q = padd Q P) /\
-  (forall P Q : @point ed25519_ops, valid P -> valid Q -> (peqb P Q = true <-> P = Q)).
+  (forall P : @point ed25519_ops, valid P -> padd P pzero = P) /\
+  (* smul_0, smul_1, smul_opp *)
+  (forall P : @point ed25519_ops, valid P -> smul 0 P = pzero) /\
+  (forall P : @point ed25519_ops, valid P -> smul 1 P = P) /\
+  (forall a (P : @point ed25519_ops), valid P -> smul (- a) P = pneg (smul a P)) /\
+  (* smul_ell_G *)
+  @smul ed25519_ops ell G = pzero /\
+  (* compress_len (for all representatives), peqb_eq *)
+  (forall P : @point ed25519_ops, length (compress P) = 32%nat) /\
+  (forall P Q : @point ed25519_ops, valid P -> valid Q -> (peqb P Q = true <-> P = Q)) /\
+  (* tors_valid, tors_8 *)
+  (forall i, @valid ed25519_ops (tors i)) /\
+  (forall i, @smul ed25519_ops 8 (tors i) = pzero) /\
+  (* decompress_valid without the curve equation *)
+  (forall b (P : @point ed25519_ops), decompress b = Some P ->
+     0 <= Ed25519.pX P < Ed25519.fp /\ 0 <= Ed25519.pY P < Ed25519.fp /\ Ed25519.pZ P = 1 /\
+     Ed25519.pT P = Ed25519.fmul (Ed25519.pX P) (Ed25519.pY P)).
+Check C13_instance_laws_remaining :
+  (forall P Q : @point ed25519_ops, valid P -> valid Q -> valid (padd P Q)) ->
+  (forall k (P : @point ed25519_ops), valid P -> valid (smul k P)) ->
+  (forall P Q R : @point ed25519_ops, valid P -> valid Q -> valid R -> padd P (padd Q R) = padd (padd P Q) R) ->
+  (forall P : @point ed25519_ops, valid P -> padd P (pneg P) = pzero) ->
+  (forall a b (P : @point ed25519_ops), valid P -> smul (a + b) P = padd (smul a P) (smul b P)) ->
+  (forall a b (P : @point ed25519_ops), valid P -> smul (a * b) P = smul a (smul b P)) ->
+  (forall a b, @smul ed25519_ops a G = smul b G -> a mod ell = b mod ell) ->
+  (forall P : @point ed25519_ops, valid P -> decompress (compress P) = Some P) ->
+  (forall b (P : @point ed25519_ops), decompress b = Some P -> inst_on_curve P) ->
+  EdLaws ed25519_ops.
 
 Print Assumptions C13_secret.
 Print Assumptions C13_secret_roundtrip.
@@ -204,3 +279,4 @@ Print Assumptions C13_panic_only_if_undecodable.
 Print Assumptions C13_public_canonical_range.
 Print Assumptions C13_laws_satisfiable.
 Print Assumptions C13_instance_laws_proved.
+Print Assumptions C13_instance_laws_remaining.
